@@ -6,7 +6,7 @@ python3 /verif/tools/confirm_seed.py "$name" "$out" "$prop" 2>&1 | tail -4 || ex
 [ -d /verif/seeded/$name ] || exit 1
 caught=""; missed=""
 for c in "$@"; do
-  res=$(cd /verif && tools/try_mutation2.sh seeded/$name/patch.diff $c 2>&1 | tail -2)
+  res=$(cd /verif && tools/try_mutation3.sh seeded/$name/patch.diff $c 2>&1 | tail -2)
   echo "$res" | cut -c1-230
   if echo "$res" | grep -q "VIOLATION property=$c"; then
     if echo "$res" | grep -q "no-failing-input-found"; then caught="$caught $c(no-failing-input-found)"; else caught="$caught $c"; fi
@@ -20,7 +20,7 @@ m = json.load(open(p))
 m['caught_by'] = caught.split()
 m['not_caught_by'] = missed.split()
 m['ran'] = ('scratch worktree of /repo HEAD: demo PASS; git apply patch.diff; pytest 1149 passed; demo FAIL; worktree removed. '
-            'Checks run with tools/try_mutation2.sh (scratch worktree of /repo HEAD + VERIF_REPO), quick tier, seed 0.')
+            'Checks run with tools/try_mutation3.sh (private copy of /verif; scratch worktree of /repo HEAD + VERIF_REPO), quick tier, seed 0.')
 json.dump(m, open(p, 'w'), indent=1)
 print('caught_by:', m['caught_by'], 'not_caught_by:', m['not_caught_by'])
 PY
